@@ -1155,6 +1155,8 @@ class Container:
                     bottom = bottom_arrays[denominator]
 
                 # c = top/bottom
+                if convert_one(substance, numerator) == 0:
+                    raise ValueError(f"{substance.name} cannot be measured in {numerator}.")
                 a[index] = c * bottom - numpy.roll(identity, i) * convert_one(substance, numerator)
                 index += 1
 
